@@ -174,12 +174,18 @@ def parse_verus_stderr(err, lines):
                 if t:
                     tag = t.group(2)
                     break
-        if ln:
-            for k in range(min(ln, len(lines)) - 1, -1, -1):
+        # the enclosing function: look upwards from the last span that lies inside the unit's own text
+        # (for contracts that come from a vstd spec trait the primary span points into the prelude)
+        own = [c for c in cand_lines if c and c <= len(lines)]
+        fn_cands = []
+        for cl in own:
+            for k in range(cl - 1, -1, -1):
                 t = re.search(r'// @fn (\S.*)$', lines[k])
                 if t:
-                    fn = t.group(1).strip()
+                    fn_cands.append((k, t.group(1).strip()))
                     break
+        if fn_cands:
+            fn = max(fn_cands)[1]
         if tag and tag.startswith('loop') and fn:
             tag = '%s/%s' % (fn, tag)
         fails.append(dict(kind=kind, line=ln, tag=tag or ('%s/%s@%s' % (fn, kind, ln)), fn=fn, msg=b[:2500]))
